@@ -227,7 +227,7 @@ func (ck *checker) genPrograms() []*program {
 	}
 	// lane B: random programs of 2-6 steps
 	rb := c.Rng("B")
-	nb := c.Pick(800, 20000)
+	nb := c.Pick(800, 60000)
 	for i := 0; i < nb; i++ {
 		ei := rb.Intn(len(ck.envs))
 		e := ck.envs[ei]
